@@ -97,12 +97,35 @@ def members(groups):
     return out
 
 
-def registry(groups):
+def registry(groups, ctx=None):
+    import copy
+
+    from hugr import ext as hext
     from hugr.ext import ExtensionRegistry
 
     r = ExtensionRegistry()
     for e in members(groups):
-        r.add_extension(e)
+        if ctx is not None and e.name.startswith("verif.") and ctx.ch.coin(1, 4, "registered-before-its-definitions"):
+            # the same calls in another order: the extension is registered while still empty and receives its
+            # definitions afterwards (the registry holds the extension object, not a snapshot of it)
+            e2 = hext.Extension(e.name, e.version)
+            r.add_extension(e2)
+            if ctx.ch.coin(1, 2, "lookup-in-between"):
+                for name in sorted(e.types):
+                    try:
+                        r.get_extension(e.name).get_type(name)
+                    except Exception:  # noqa: BLE001  not there yet
+                        ctx.fault("lookup_before_the_definition_exists")
+            for coll, add in ((e.types, e2.add_type_def), (e.operations, e2.add_op_def)):
+                for k in sorted(coll):
+                    d = copy.copy(coll[k])
+                    d._extension = None
+                    if hasattr(d, "signature"):
+                        d.signature = copy.copy(d.signature)
+                    add(d)
+            ctx.probe("extension_registered_before_its_definitions")
+        else:
+            r.add_extension(e)
     return r
 
 
@@ -259,7 +282,7 @@ def hugr_leg(ctx):
             break
     ctx.profile = {"leg": "hugr", "root": sim.root_kind, "chain": ["+".join(c) or "empty" for c in chain]}
     for groups in chain:
-        reg = registry(groups)
+        reg = registry(groups, ctx)
         deliveries = 1 + ch.draw(3, "deliveries")
         for d in range(deliveries):
             before = {n.idx: (h[n].op, op_tree(h[n].op)) for n in h}
@@ -426,6 +449,14 @@ def type_leg(ctx):
     ch = ctx.ch
     ctx_probe[0] = ctx.probe
     ty0 = gen_texpr(ch)
+    if ch.coin(1, 6, "deeply-wrapped"):
+        # size class: the opaque types sit many levels below the top, under sums and function types only
+        t = T()
+        for _ in range(3 + ch.draw(9, "wrap-depth")):
+            w = ch.draw(4, "wrap-kind")
+            ty0 = [lambda x: t.tys.Tuple(x), lambda x: t.tys.Option(x), lambda x: t.tys.Either([t.B], [x]),
+                   lambda x: t.tys.FunctionType([x], [t.B])][w](ty0)
+        ctx.probe("opaque_type_under_many_sums")
     tmp = []
     walk_type(ty0, tmp, "t")
     if not tmp:
@@ -492,7 +523,7 @@ def type_leg(ctx):
         groups = list(known)
         if any(g.endswith("~") for g in groups):
             ctx.probe("registry_with_older_extension_version")
-        reg = registry(groups)
+        reg = registry(groups, ctx)
         for d in range(1 + ch.draw(2, "deliveries")):
             try:
                 ty2 = ty.resolve(reg)
